@@ -61,7 +61,8 @@ def gen(prop, stream, tier, avoid):
     kn = stream("knobs")
     knobs = {"cache_size": kn.pick([None, None, "1", "16", "1024"]),
              "clear_p": kn.pick([0.0, 0.0, 0.15, 0.4]),
-             "exact": kn.chance(0.1)}
+             "exact": kn.chance(0.1),
+             "argseq": kn.pick(["list", "list", "tuple"])}      # sequence type the caller uses for params / counts
     nobj = kn.pick([1, 1, 2, 2, 3])
     objs = []
     for _ in range(nobj):
@@ -320,6 +321,9 @@ def _views(lv):
     return v
 
 
+ARGSEQ = [list]
+
+
 def _held_list(lv, held, plan, avail):
     """The caller-held list of counts for this call, or None when the counts it holds are not admissible here.
     plan: [(d, u, r, x)], avail(planitem) -> largest admissible count in that direction."""
@@ -339,7 +343,7 @@ def _call_insert(lv, via, params, nums, held=None):
     g = shapes.G
     obj = lv.obj
     if via == "operations":
-        g.operations.insert_knot(obj, list(params), held if held is not None else list(nums))
+        g.operations.insert_knot(obj, ARGSEQ[0](params), held if held is not None else ARGSEQ[0](nums))
         return
     if lv.nd == 1:
         obj.insert_knot(params[0], num=nums[0])
@@ -356,7 +360,7 @@ def _call_remove(lv, via, params, nums, held=None):
     g = shapes.G
     obj = lv.obj
     if via == "operations":
-        g.operations.remove_knot(obj, list(params), held if held is not None else list(nums))
+        g.operations.remove_knot(obj, ARGSEQ[0](params), held if held is not None else ARGSEQ[0](nums))
         return
     if lv.nd == 1:
         obj.remove_knot(params[0], num=nums[0])
@@ -381,6 +385,7 @@ def run(script, ctx):
     prop = script["property"]
     g = shapes.G.load()
     num = R.fr if script["knobs"].get("exact") else float
+    ARGSEQ[0] = tuple if script["knobs"].get("argseq") == "tuple" else list
     world = []
     for spec in script["objects"]:
         world.append(Live(spec, num))
